@@ -145,7 +145,7 @@ def run(ctx):
         inl = {}
         attempts = 0
         pending = list(allcases)
-        while pending and attempts < 4:
+        while pending and attempts < 3:
             attempts += 1
             cf = '%s/cases_%d_%d.txt' % (work, ci, attempts)
             open(cf, 'w').write('\n'.join(pending) + '\n')
@@ -200,8 +200,20 @@ def run(ctx):
                 ops = f[2].split(',')
                 res = kvs['r'].split('|')
                 prev = ','.join(['5'] * nw)
+                nsubm = 0
                 for op, x in zip(ops, res):
-                    e, stt, _ = x.split(':')
+                    e, stt, dn = x.split(':')
+                    if op[1] == 'T':
+                        nsubm += 1
+                    sts = stt.split(',')
+                    if int(dn) < nsubm and all(y == '5' for y in sts):
+                        r.hits.append(Hit('monitor', 'C19:stranded_all_running',
+                                          'after %s every worker is running, yet only %s of %d submitted tasks have run (%s %s, history %s)'
+                                          % (op, dn, nsubm, cfgs, pol, f[2]), rep))
+                    elif int(dn) < nsubm and st and '5' in sts:
+                        r.hits.append(Hit('monitor', 'C19:stranded_despite_stealing',
+                                          'after %s a worker is running and stealing is enabled, yet only %s of %d submitted tasks have run '
+                                          '(states %s) (%s %s, history %s)' % (op, dn, nsubm, stt, cfgs, pol, f[2]), rep))
                     unsupported = (op[1:3] == 'SP' and (not el or (op[0] == 's' and not st))) or op == 'sSA'
                     if e == 'e1' and stt != prev:
                         r.hits.append(Hit('monitor', 'C19:unsupported_refused:state_changed',
